@@ -86,6 +86,24 @@ func (g *degrader) ty(s *Src, attrOK bool) *Src {
 			g.log["enumI.nested→ref"]++
 			return srcRef(name)
 		}
+	case SNullable:
+		saved := g.inNullable
+		g.inNullable = true
+		s.Elem = g.ty(s.Elem, false)
+		g.inNullable = saved
+		if g.format == "openapi" {
+			k := s.Elem.Kind
+			switch {
+			case k == SRef:
+				g.log["elem.nullable.ref→not nullable"]++
+				return s.Elem
+			case k == SString || k == SInt || k == SNum:
+			case k == SConst && s.Elem.Const.K == 's' && regexSafeConst(s.Elem.Const.S):
+			case g.level >= 2:
+				g.log["elem.nullable."+k.String()+"→not nullable"]++
+				return s.Elem
+			}
+		}
 	case SArray:
 		s.Elem = g.ty(s.Elem, false)
 	case SDict:
